@@ -222,6 +222,16 @@ func (g *gen) designed() []*node {
 		{nSym("k"), nSym("K"), nSym("\u212a")},
 		{nStr("abc"), nStr("ABC"), nSym("abc")},
 		{nFix(1000000), nF64(1000000), nF32(1000000)},
+		// sxhash across representations (repairs C16-9 / C16-10) and exact bignum / ratio comparison (C16-11)
+		{nRat(big.NewInt(1), big.NewInt(2)), nF64(0.5), nF32(0.5)},
+		{nRat(big.NewInt(5), big.NewInt(4)), nF64(1.25), nBig(big.NewInt(1))},
+		{nFix(123456), nF32(123456), nBig(big.NewInt(123456))},
+		{nFix(16777215), nF32(16777215), nF64(16777215)},
+		{nBig(p79), nRat(add(p80, 3), big.NewInt(2)), nRat(add(p80, 1), big.NewInt(2))},
+		{nBig(add(p64, 1)), nRat(add(new(big.Int).Lsh(p64, 1), 3), big.NewInt(2)), nF64(1.8446744073709552e19)},
+		// a fixnum beyond 2^53 against the single and the double it converts to (known finding)
+		{nFix(1152921573326323713), nF32(1.152921642045800448e18), nF64(1.152921573326323712e18)},
+		{nLst(nStr("kelvin"), nFix(1000000)), nLst(nStr("\u212aELVIN"), nF64(1000000)), nVec(nStr("kelvin"), nFix(1000000))},
 		{nFix(5), nF64(5), nBig(big.NewInt(5))},
 		{nLst(), {k: kNil}, nVec()},
 		{nLst(nFix(1), nTl(nFix(2))), nLst(nFix(1), nFix(2)), nLst(nFix(1), nTl(nF64(2)))},
